@@ -374,6 +374,11 @@ def gen_blk(rng, cases):
             if rng.chance(1, 3):
                 block[k] = rng.choice([1, -1, lim, -lim, lim + 1, -lim - 1, 32767, -32768, 16383, -16384])
         block[0] = rng.choice([0, 2 * lim + 1, 2 * lim + 2, -2 * lim - 2, 32767, -32768])
+    elif fam == "missing":
+        for _ in range(rng.range(1, 5)):
+            block[rng.below(64)] = rng.range(-lim, lim) >> rng.below(prec)
+        if rng.chance(1, 2):
+            block[63] = 0
     elif fam == "sparse":
         for _ in range(rng.range(0, 4)):
             block[rng.below(64)] = rng.range(-lim, lim)
@@ -409,6 +414,10 @@ def gen_blk(rng, cases):
     elif fam == "missing" and acn:
         # legal tables that lack a symbol the block needs (jchuff.c has no JERR_HUFF_MISSING_CODE test)
         drop = rng.choice(acn)
+        if 0 in acn and rng.chance(1, 3):
+            drop = 0                       # end-of-block code
+        elif 0xF0 in acn and rng.chance(1, 2):
+            drop = 0xF0                    # run-length-16 code
         dct = valid_table(rng, dcn, list(range(16)), False)
         act = valid_table(rng, [x for x in acn if x != drop] or [1], [x for x in range(256) if x != drop], False)
         opt = 0
